@@ -141,7 +141,7 @@ def gen_value(cls, fname, finfo, key, present: bool):
     required = finfo.is_required()
     if not required and not present:
         return None
-    h = _h(key, fname)
+    h = _h(key, fname, _SALT[0])       # salted by the case: an object id meets other values in other cases
     lo = hi = None
     for m in finfo.metadata:
         lo = getattr(m, "ge", lo)
@@ -150,7 +150,9 @@ def gen_value(cls, fname, finfo, key, present: bool):
         if lo is not None or hi is not None:
             return [0.0, 1.0, 0.5, 0.123456789, 1e-12, 0.9999999999999999][h % 6]
         if fname in ("latitude", "longitude"):
-            return [12.3456789, -45.0, 0.0, 89.999999][h % 4]
+            # incl. the closed ends of the legal ranges (latitude +-90, longitude +-180)
+            return ([12.3456789, -45.0, 0.0, 89.999999, 90.0, -90.0] if fname == "latitude"
+                    else [12.3456789, -45.0, 0.0, 180.0, -180.0, 179.9999999])[h % 6]
         if fname == "time_expansion":
             return [10.0, 0.5, 1.0, 2.5, 1.0000000000000002][h % 5]
         if fname == "duration":
@@ -209,6 +211,7 @@ def scalars(cls, key, pattern, skip=()):
 
 # ----------------------------------------------------------------------------- world -> real objects
 GIVEN_PATHS = {}
+_SALT = [""]
 
 
 def build_world(case, audio_root: Path):
@@ -216,6 +219,7 @@ def build_world(case, audio_root: Path):
     pat = case.get("pattern", "max")
     place = case.get("place", "inside")
     objs, rev = {}, {}
+    _SALT[0] = str(_h(case.get("ctype"), ",".join(sorted(map(str, case.get("sw", [])))), pat, len(case.get("objs", []))) % 1009)
 
     def note(n, key):
         kw = scalars(data.Note, key, pat, skip=("created_by",))
@@ -555,12 +559,13 @@ def run_paths(case, workdir: Path):
     try:
         os.chdir(tmp)
         rel = case.get("akind", "abs") == "rel"
-        A = Path("audio dir A") if rel else tmp / "audio dir A"
+        # the directory names carry a dot-suffix (audio dir A.v2): a directory is a directory whatever its name looks like
+        A = Path("audio dir A.v2") if rel else tmp / "audio dir A.v2"
         if rel and (case.get("dir") or [""])[0] == "~":
             A = Path(".")        # the recordings are given as "~/x/<file>": a relative path whose first component is a tilde
         bk = case.get("bkind", "abs")
-        first = (case.get("dir") or ["audio dir A"])[0]
-        B = {"abs": tmp / "moved" / "audio B", "rel": Path("moved") / "audio B", "rel_first": Path(first)}[bk]
+        first = (case.get("dir") or ["audio dir A.v2"])[0]
+        B = {"abs": tmp / "moved" / "audio B", "rel": Path("moved") / "audio B", "rel_first": Path(first), "root": Path("/")}[bk]
         root, rev, recs = build_world(case, A)
         mode = case["audio"]
         adir = {"none": None, "str": str(A), "path": A, "fspath": _FsPath(A)}[mode]
